@@ -7,7 +7,6 @@ import (
 	"github.com/remieven/ysgo/verifharness/core"
 	"github.com/remieven/ysgo/verifharness/gen"
 	"github.com/remieven/ysgo/verifharness/hast"
-	"github.com/remieven/ysgo/verifharness/model"
 )
 
 // C01 — dialogue flow follows Yarn's sequential semantics.
@@ -43,7 +42,7 @@ func (c01) Thresholds(tier string) map[string]int64 {
 }
 
 func (c01) Rule() string {
-	return "case = one AST-first generated program (<=5 nodes, <=45 statements, nesting <=5, or a deep-nesting chain up to depth 10, 1-3 readers) rendered in the canonical layout and driven along systematically enumerated choice paths (first path all-0, siblings of every choice point met, <=10 paths quick / <=24 thorough); every Next is compared online with the reference interpreter (element kind, node, text, tags, option list and flags, host-function and command invocations in order, variable store content). Non-trivial: the path chose >=1 option and (took >=1 jump or reached continuation depth >=3 or took a non-first if clause). Distinct by hash of scripts+choices."
+	return "case = one AST-first generated program (<=5 nodes, <=45 statements, nesting <=5, or a deep-nesting chain up to depth 10, 1-3 readers) rendered in the canonical layout (two cases in three) or a PRNG layout and driven along systematically enumerated choice paths (first path all-0, siblings of every choice point met, <=10 paths quick / <=24 thorough); every Next is compared online with the reference interpreter (element kind, node, text, tags, option list and flags, host-function and command invocations in order, variable store content). Non-trivial: the path chose >=1 option and (took >=1 jump or reached continuation depth >=3 or took a non-first if clause). Distinct by hash of scripts+choices."
 }
 
 func (c01) Assumptions() []string {
@@ -133,7 +132,13 @@ func (c01) genProgram(c *core.Ctx) *hast.Program {
 
 func (p c01) Run(c *core.Ctx) {
 	prog := p.genProgram(c)
-	scripts := hast.Render(prog, hast.L0())
+	// the flow semantics hold in every layout: one case in three is rendered in a PRNG layout
+	lay := hast.L0()
+	if c.Idx%3 == 2 {
+		lay = hast.RandomLayout(c.R.Fork())
+		c.Feature("rendered-in-random-layout")
+	}
+	scripts := hast.Render(prog, lay)
 	for k, v := range gen.Shapes(prog) {
 		if k != "max-static-depth" {
 			c.FeatureN(k, v)
@@ -145,68 +150,16 @@ func (p c01) Run(c *core.Ctx) {
 	if c.Thorough() {
 		maxPaths = 24
 	}
-	ex := newExplorer(maxPaths)
-	for {
-		prefix, ok := ex.next()
-		if !ok {
-			break
-		}
-		pair, err, pan := NewPair(prog, scripts, PairOpts{UseDefaultStore: c.R.Chance(1, 3)}, c.R.Fork())
-		if pan != "" || err != nil {
-			c.Violate("a generated, syntactically valid program failed to load", map[string]any{"readers": scripts, "error": fmt.Sprint(err), "panic": pan})
-			return
-		}
-		var choices []int
-		chose, nonFirst := 0, false
-		var last model.Outcome
-		for step := 0; step < 400; step++ {
-			choice := 0
-			if pair.M.Waiting() {
-				n := pair.M.NumOptions()
-				if len(choices) < len(prefix) {
-					choice = prefix[len(choices)]
-					if choice >= n {
-						choice = n - 1
-					}
-				} else {
-					ex.offer(choices, n, c.R)
-				}
-				choices = append(choices, choice)
-				chose++
-				if last.Kind == model.OOptions && choice < len(last.Opts) && last.Opts[choice].Disabled {
-					c.Feature("disabled-option-chosen")
-				}
-			} else {
-				c.Feature("garbage-arg-after-non-option")
+	explorePaths(c, "trace diverges from Yarn's sequential semantics", prog, scripts,
+		func() PairOpts { return PairOpts{UseDefaultStore: c.R.Chance(1, 3)} }, maxPaths, nil,
+		func(pr *pathRun) {
+			pair := pr.pair
+			nonFirst := pair.M.Stats["if-taken-not-first"] > 0
+			if pr.chose > 0 && (pair.M.Jumps > 0 || pair.M.MaxDepth >= 3 || nonFirst) {
+				c.Nontrivial(strings.Join(scripts, "\x00"), fmt.Sprint(pr.choices))
 			}
-			want, got, diff := pair.Step(choice)
-			if want.Kind == model.OBudget {
-				c.Discard()
-				break
+			if c.WantSample() && pr.chose > 1 && pair.M.Jumps > 0 {
+				c.Sample(map[string]any{"readers": scripts, "choices": pr.choices, "trace": pair.Trace})
 			}
-			c.Event(want.Kind.String(), 1)
-			if diff != "" {
-				c.Violate("trace diverges from Yarn's sequential semantics: "+diff, pair.Detail(choices, want, got, diff))
-				return
-			}
-			last = want
-			if want.Kind == model.OEnd || want.Kind == model.OErr {
-				break
-			}
-		}
-		c.Feature("paths")
-		for k, v := range pair.M.Stats {
-			c.FeatureN(k, v)
-			if k == "if-taken-not-first" && v > 0 {
-				nonFirst = true
-			}
-		}
-		c.MaxOf("continuation-depth", pair.M.MaxDepth)
-		if chose > 0 && (pair.M.Jumps > 0 || pair.M.MaxDepth >= 3 || nonFirst) {
-			c.Nontrivial(strings.Join(scripts, "\x00"), fmt.Sprint(choices))
-		}
-		if c.WantSample() && chose > 1 && pair.M.Jumps > 0 {
-			c.Sample(map[string]any{"readers": scripts, "choices": choices, "trace": pair.Trace})
-		}
-	}
+		})
 }
